@@ -61,6 +61,11 @@ def gen_spec(rng):
     spec = {"kind": kind, "variants": variants, "traits": traits, "raw": raw, "gen": gen_kind,
             "entry": rng.choice(["attr", "derive"]), "type_attr": rng.choice(["", "", "#[repr(C)]", "#[non_exhaustive]"]),
             "where": rng.random() < 0.3, "gdefault": rng.random() < 0.3, "unsized": False, "disc": rng.random() < 0.5, "vattr": rng.random() < 0.25}
+    if kind == "struct" and rng.random() < 0.06 and variants[0]["style"] != "unit":
+        # a packed struct (the std derives accept it when every field is Copy)
+        spec["type_attr"] = rng.choice(["#[repr(packed)]", "#[repr(C, packed(2))]"])
+        spec["gen"] = "none"
+        variants[0]["fields"] = [rng.choice(["u8", "i32", "pair"] + (["f64"] if noeq_ok else [])) for _ in range(rng.randint(1, 3))]
     if kind == "enum":
         if "Default" in traits:
             units = [i for i, v in enumerate(variants) if v["style"] == "unit"]
@@ -322,6 +327,8 @@ def feature_tags(spec):
         t.append("raw-ident")
     if spec["unsized"]:
         t.append("unsized-tail")
+    if "packed" in spec["type_attr"]:
+        t.append("packed")
     return "+".join(t)
 
 
@@ -351,6 +358,10 @@ def core():
         {"style": "named", "fields": []}, {"style": "unit", "fields": []}]))
     specs.append(dict(base, kind="struct", gen="aT", traits=["Clone", "Debug", "PartialEq", "Eq", "PartialOrd", "Ord", "Hash"],
                       type_attr="#[non_exhaustive]", variants=[{"style": "named", "fields": ["str", "T", "pair"]}]))
+    # packed structs (listed known finding: generated code takes references to the fields)
+    specs.append(dict(base, kind="struct", traits=list(ALL8), type_attr="#[repr(packed)]", variants=[{"style": "named", "fields": ["u8", "i32"]}]))
+    specs.append(dict(base, kind="struct", traits=["Clone", "Debug", "PartialEq"], entry="derive", type_attr="#[repr(C, packed(2))]",
+                      variants=[{"style": "tuple", "fields": ["u8", "pair", "i32"]}]))
     return specs
 
 
@@ -381,7 +392,10 @@ def run(rep, tier, rng):
             d = next((d for d in c.diags if d["level"] == "error" and d["in_derive_ex"]), None) or next(d for d in c.diags if d["level"] == "error")
             rep.evaluations += 1
             rep.count("dropin_compile_failures")
-            sigs.setdefault(f"C12|compile_fail|{d['code']}|{feature_tags(s)}", []).append(
+            tags = feature_tags(s)
+            if "packed" in tags and d["code"] == "E0793":
+                tags = "packed-struct"      # one signature for the listed finding, whatever else the type has
+            sigs.setdefault(f"C12|compile_fail|{d['code']}|{tags}", []).append(
                 (c, f"std derive compiles, derive_ex does not ({d['code']}: {(d['message'] or '')[:160]}): {describe(s)}"))
             continue
         if any(e.get("k") == "panic" for e in c.events):
